@@ -186,7 +186,7 @@ func (c *spyCall) Failed(reason string) {
 	c.h.maybePark(2, c.idx)
 	c.h.add(c.idx, 5, reason)
 }
-func (c *spyCall) End()                         { c.h.add(c.idx, 6, "") }
+func (c *spyCall) End() { c.h.add(c.idx, 6, "") }
 
 // reason strings -> the model's reason codes (Model/RelayItems.v)
 var rsMetricKeys = map[string]int{"invalid": 0, "timeout": 1, "cancelled": 2, "busy": 3, "declined": 4, "unexpected-error": 5,
